@@ -85,13 +85,14 @@ func init() {
 	register(&PropSpec{
 		ID:    "C11",
 		Level: "other",
-		Decided: "the last sentence of the property only - a type that cannot be handled is refused with an error when folding or when the target is set, not by a crash: explicit panics / always-panicking helpers in gotype are obligations (R9); map types with non-string keys are refused (R14a); the type compilers must mark a type in progress before descending (R14c, self-referential types).",
-		NotDecided: "the round trip itself (deep equality of folded-then-unfolded values, directly or through a codec) is value- and program-level and needs execution; field-name agreement between fold and unfold side is checked by reading only.",
+		Decided: "the last sentence of the property only - a type that cannot be handled is refused with an error when folding or when the target is set, not by a crash: explicit panics / always-panicking helpers in gotype are obligations (R9); map types with non-string keys are refused (R14a); the type compilers must mark a type in progress before descending (R14c, self-referential types); and one necessary condition of any struct round trip: fold side and unfold side derive member names identically (R20c).",
+		NotDecided: "the round trip itself (deep equality of folded-then-unfolded values, directly or through a codec) is value- and program-level and needs execution; nothing about values.",
 		Assumptions: []string{},
 		TrustedBase: baseTrusted,
 		Rules: []RuleRun{
 			{"R9", R9("gotype")},
 			{"R14", R14},
+			{"R20", R20},
 		},
 		LevelText: "Only the refusal clause is decided (structural: panic sites, key-kind checks, recursion guard in the compiler cycles). The value-level round trip is not a static question and is not claimed.",
 		Technique: "panic-site enumeration with mechanical exceptions; AST sibling rule; call-graph SCC + dominance rule for the memoisation-before-descent requirement",
@@ -112,5 +113,37 @@ func init() {
 		LevelText:   "Structural necessary conditions decided by an interprocedural alias-flow analysis with per-parameter retention summaries (fixpoint) over the whole library. Tests parse from immutable buffers that are never reused, so an alias is indistinguishable from a copy; the flow rule does not depend on any buffer history.",
 		Technique:   "interprocedural alias/retention flow on SSA with parameter summaries (retains / returns-alias / writes-through), path-sensitive freshness gate for json.unquote, dominance gate at the hand-over sites, x/tools unsafeptr pass",
 		DesignRef:   "DESIGN.md section 2 R16; section 3 C15",
+	})
+	register(&PropSpec{
+		ID:    "C05",
+		Level: "other",
+		Decided: "items outside the supported subset are refused with an error, never by a panic or a hang: every explicit panic / always-panicking helper in cborl is an obligation (R9: tags, half floats, unknown states); no step function can stutter on any additional-information value incl. the reserved 28-30 (R2); integers keep their value through the decoder's conversions (R5, when registered below).",
+		NotDecided: "the value of every supported item (nesting bookkeeping length.current--, a break byte inside a definite container, float bits) - value-level, needs a reference decoder.",
+		Assumptions: []string{},
+		TrustedBase: baseTrusted,
+		Rules: []RuleRun{
+			{"R9", R9("cborl")},
+			{"R2", R2("cborl")},
+			{"R3", R3("cborl")},
+		},
+		LevelText: "Structural necessary conditions on every path of the cborl step functions (refusal = error value; no stutter; incomplete token changes nothing).",
+		Technique: "panic-site enumeration, stutter-freedom and collect-guard path analysis over the cborl step family",
+		DesignRef: "DESIGN.md section 2 R2, R5, R9; section 3 C05",
+	})
+	register(&PropSpec{
+		ID:    "C06",
+		Level: "other",
+		Decided: "the announced element type of an optimized container applies to exactly that container: every completion path of a typed handler pops the element type, completion vectors of array/object siblings agree (R7); a key split across writes does not corrupt the state, a parked length marker is not reset before the length is complete (R3); no marker stalls the machine, unknown length markers and the no-op element type are errors (R2).",
+		NotDecided: "values, no-op placement, high-precision numbers' text, that the element count delivered equals the announced count.",
+		Assumptions: []string{},
+		TrustedBase: baseTrusted,
+		Rules: []RuleRun{
+			{"R7", R7},
+			{"R3", R3("ubjson")},
+			{"R2", R2("ubjson")},
+		},
+		LevelText: "Structural necessary conditions on every path of the ubjson container handlers and step functions. Optimized containers nested in optimized containers are never parsed by the suite; the completion-vector rule covers every nesting by induction.",
+		Technique: "completion-vector (stack delta) analysis of container handlers with sibling agreement; collect-guard and stutter-freedom path analysis",
+		DesignRef: "DESIGN.md section 2 R7, R3, R2; section 3 C06",
 	})
 }
